@@ -3,6 +3,7 @@ package main
 import (
 	gocontext "context"
 	"fmt"
+	"net"
 	"strings"
 	"time"
 
@@ -17,6 +18,7 @@ const outTrivial = "trivial" // returned without looking at the input (e.g. pod 
 
 // podIn is a generated pod plus what to do with it.
 type podIn struct {
+	freeIP  string // sync-free-ip class: the annotated address is made free in the instance before the call
 	pod     *corev1.Pod
 	nodes   []corev1.Node
 	node    string // bind target
@@ -282,6 +284,31 @@ func (s *surf1) gen(idx int) *Input {
 		pod.Annotations = map[string]string{constant.ExtendedCNIArgsAnnotation: pod.Annotations[constant.ExtendedCNIArgsAnnotation]}
 		d.nodes = s.e.nodes[:3]
 	}
+	var fault *faultSpec
+	if tag == "" && g.chance(0.05) {
+		// a Running pod whose args annotation names a configured address that is free in memory: pod-ip sync allocates
+		// that specific address (AllocateSpecificIP), i.e. writes a FloatingIP object; often that write fails once
+		class = "sync-free-ip"
+		op = g.pick("UpdatePod", "VerifSyncPodIPs")
+		ip := g.pick("10.0.70.5", "10.0.70.9", "10.0.70.12", "10.0.70.18", "10.173.13.11", "10.49.27.217", "255.255.255.250", "0.0.0.5")
+		d.freeIP = ip
+		pod.Name, pod.Namespace = g.pick("sts-xxx-0", "sts-xxx-1", "web-1"), "ns1"
+		pod.OwnerReferences = []metav1.OwnerReference{{Kind: "StatefulSet", Name: "sts-xxx"}}
+		pod.Spec = eniPodSpec(true)
+		pod.Spec.NodeName = "n-01"
+		pod.Status.Phase = corev1.PodRunning
+		pod.Annotations = map[string]string{constant.ExtendedCNIArgsAnnotation: fmt.Sprintf(
+			`{"common":{"ipinfos":[{"ip":"%s/24","vlan":0,"gateway":"10.0.70.1"}]}}`, ip)}
+		if g.chance(0.3) {
+			pod.Annotations[constant.ReleasePolicyAnnotation] = g.pick("immutable", "never")
+		}
+		if g.chance(0.6) {
+			fault = &faultSpec{Verb: "create", Resource: "floatingips", Nth: 1, Err: g.pick("internal", "already-exists", "plain")}
+		}
+	}
+	if fault == nil && tag == "" {
+		fault = genFault(g, 0.12)
+	}
 	d.node = g.pick("n-27", "n-173", "n-01", "n-top", "n-bot")
 	if g.chance(0.1) {
 		d.node = g.pick("n-noip", "n-junk", "n-out", "ghost", "", g.junk())
@@ -301,7 +328,13 @@ func (s *surf1) gen(idx int) *Input {
 		d.staged = g.chance(0.8)
 		d.keepPod = g.chance(0.3)
 	}
+	if class == "sync-free-ip" && op == "VerifSyncPodIPs" {
+		d.staged, d.keepPod = true, false
+	}
 	show := map[string]interface{}{"pod": showPod(pod)}
+	if d.freeIP != "" {
+		show["address_free_in_memory_before_call"] = d.freeIP
+	}
 	switch op {
 	case "Filter", "Filter+Bind":
 		show["nodes"] = showNodes(d.nodes)
@@ -316,7 +349,10 @@ func (s *surf1) gen(idx int) *Input {
 	if op == "VerifSyncPodIPs" || op == "VerifResyncOnce" {
 		show["pod_in_lister"] = d.staged
 	}
-	return &Input{Class: class, Tag: tag, Op: op, Show: show, data: d}
+	if fault != nil {
+		show["api_fault"] = fault
+	}
+	return &Input{Class: class, Tag: tag, Op: op, Show: show, Fault: fault, data: d}
 }
 
 // stagePod puts the pod into the fake API store and waits for the plugin's lister to see it.
@@ -369,6 +405,15 @@ func (s *surf1) call(in *Input) (string, string) {
 			defer unstagePod(e, pod)
 		}
 	}
+	if d.freeIP != "" {
+		// staging: the annotated address is free in memory (whoever held it from earlier inputs gives it back)
+		ipam := e.plugin.GetIpam()
+		if f, err := ipam.ByIP(net.ParseIP(d.freeIP)); err == nil && f.Key != "" {
+			_, _, _ = ipam.ReleaseIPs(map[string]string{d.freeIP: f.Key})
+		}
+	}
+	e.fault.arm(in.Fault)
+	defer e.fault.disarm()
 	trivial := !wantsENI(pod)
 	fin := func(err error) (string, string) {
 		o, m := classifyErr(err)
@@ -426,6 +471,8 @@ func (s *surf1) call(in *Input) (string, string) {
 }
 
 func (s *surf1) probe(in *Input, step func(string)) {
+	s.e.fault.disarm()
+	s.e.flushFaultCounters(s.c)
 	d := in.data.(*podIn)
 	s.e.probe(d.pod, step)
 }
